@@ -760,6 +760,14 @@ func (vc *VC) oblQuery(o *Obl) string {
 		} else {
 			// int mode: only the index terms at which the goal reads arrays (E-matching does the rest)
 			relax := false // while walking definitions of constants the goal mentions, indexes need not mention a skolem
+			// integers converted to reals are instantiation candidates only in goals that convert a term over a skolem
+			// (cell coordinates such as i/2); elsewhere they would only add irrelevant instances
+			realIdx := false
+			goal.walk(func(x *Term) {
+				if x.Op == "to_real" && len(x.Args) == 1 && len(x.Args[0].Args) > 0 && mentions(x.Args[0]) {
+					realIdx = true
+				}
+			})
 			var idx func(t *Term)
 			idx = func(t *Term) {
 				if t.Op == "forall" || t.Op == "exists" {
@@ -785,7 +793,7 @@ func (vc *VC) oblQuery(o *Obl) string {
 						}
 					}
 				}
-				if t.Op == "to_real" && len(t.Args) == 1 && t.Args[0].S.K == KInt {
+				if realIdx && t.Op == "to_real" && len(t.Args) == 1 && t.Args[0].S.K == KInt {
 					// an integer the goal converts to a real (a cell index such as i/2): quantified hypotheses over
 					// cell coordinates are instantiated there
 					c := t.Args[0]
